@@ -1267,7 +1267,7 @@ def _hex_to_rgb_or_rgba(color, alpha_float=True):
         # Expand RGB -> RRGGBB and RGBA -> RRGGBBAA
         color = ''.join([color[i] * 2 for i in range(len(color))])
     color_len = len(color)
-    if color_len not in (6, 8):
+    if color_len not in (6, 8) or not all(c in '0123456789abcdefABCDEF' for c in color):
         raise ValueError(f'Input #{color} is not in #RRGGBB nor in #RRGGBBAA format')
     res = tuple([int(color[i:i + 2], 16) for i in range(0, color_len, 2)])
     if alpha_float and color_len == 8:
